@@ -785,3 +785,26 @@ PROPS["C07"] = dict(
           "and ending at an unmapped page, equal memcpy/memset including the surrounding bytes."),
     assumptions=["gcc 12.2 stands for the application's C compiler"],
 )
+
+PROPS["C08"] = dict(
+    variant="tsan",
+    sources=["props/c08_threads.c"],
+    level="exploration",
+    technique="property-based concurrency testing (rapidcheck-generated per-thread operation lists with generated yields, all threads released by a barrier, fresh process per case) under ThreadSanitizer's happens-before race detection, with result and exactly-once counters as oracles",
+    level_text=("generated workloads of 2..16 threads x 3..14 operations each (concurrent orc_init, compile/run/free of own programs for "
+                "avx/sse/mmx with and without code hand-off, runs of functions compiled once and shared, calls through once-guarded wrappers "
+                "written like orcc's lazy-init output) with generated yields, each in a fresh process under ThreadSanitizer. TSan judges every "
+                "pair of conflicting accesses that occurred, not only the interleaving that happened to run; sampled, not exhaustive, and "
+                "JIT-generated code itself is not instrumented"),
+    level_note=("trusted base: ThreadSanitizer (clang 14) for the library's C code, the harness' counters and C reference kernels; accesses made "
+                "by generated machine code are invisible to TSan (they only touch the calling thread's own arrays); liveness is only observed "
+                "as 'all threads joined within the CPU limit'"),
+    stages=[
+        dict(name="rc-thread-workloads", mode="rc", quick=dict(cases=9000, max_size=400, budget=50), thorough=dict(cases=200000, max_size=600, budget=1500)),
+    ],
+    rule=("a case is one process: thread count, per-thread operation list with yields. Non-trivial: at least two concurrent compiles, or a "
+          "once-guarded wrapper called from two or more threads, or two runs of a shared function. Oracle: no ThreadSanitizer report (the "
+          "process aborts on the first), every kernel result equals the C computation, each used wrapper's initialisation block ran exactly "
+          "once and returned a non-NULL code object, unused wrappers were not initialised."),
+    assumptions=["pthread build of Orc (ORC_THREADS via pthreads)"],
+)
